@@ -566,7 +566,10 @@ def file(node, filename, mode="a", skip_black=False):
     # sibling temporary file, then atomically move it over `filename`.
     if mode.startswith("a") and path.isfile(filename):
         with open(filename, "rt") as f:
-            src = f.read() + src
+            existing = f.read()
+        if existing and not existing.endswith("\n"):
+            existing += "\n"  # do not glue the addition onto an unterminated last line
+        src = existing + src
     tmp_filename = "{}.doctrans.tmp".format(filename)
     try:
         with open(tmp_filename, "wt") as f:
